@@ -504,7 +504,12 @@ class Interp(object):
         return m(node, st, fr)
 
     def expr_Constant(self, node, st, fr):
-        return node.value
+        v = node.value
+        if isinstance(v, float) and v == v and abs(v) != float('inf'):
+            # A-REAL: a float literal denotes the decimal number written in the source, exactly
+            import fractions
+            return fractions.Fraction(repr(v))
+        return v
 
     def expr_Name(self, node, st, fr):
         return self.load_name(node.id, st, fr)
@@ -593,7 +598,7 @@ class Interp(object):
         if op == 'Not':
             return bnot(self.truth(v, st))
         if op == 'USub':
-            return self.binop('Sub', 0, v, st) if not isinstance(v, (int, float)) else -v
+            return self.binop('Sub', 0, v, st) if not (isinstance(v, (int, float)) or type(v).__name__ == 'Fraction') else -v
         if op == 'UAdd':
             return v
         if op == 'Invert':
@@ -673,9 +678,10 @@ class Interp(object):
 
     @staticmethod
     def _int_exp(b):
+        import fractions
         if isinstance(b, int):
             return b
-        if isinstance(b, float) and b == int(b):
+        if isinstance(b, (float, fractions.Fraction)) and b == int(b):
             return int(b)
         raise Unsupported("non-integer power of a unit")
 
@@ -807,7 +813,7 @@ class Interp(object):
             if v.is_bool:
                 return v
             return compare('!=', v, 0)
-        if isinstance(v, (int, float)):
+        if isinstance(v, (int, float)) or type(v).__name__ == 'Fraction':
             return v != 0
         if isinstance(v, str):
             return len(v) > 0
